@@ -39,10 +39,21 @@ def _is_obj(out) -> bool:
 
 
 # ----------------------------------------------------------------------------- S1 kernels
+def _memview_contract(coeffs):
+    """`T [::1] coeffs` in cvalues.pyx: a 1-d, C-contiguous, *writable* buffer is required."""
+    if coeffs.ndim != 1:
+        raise ValueError("Buffer has wrong number of dimensions (expected 1, got %d)" % coeffs.ndim)
+    if not coeffs.flags.c_contiguous:
+        raise ValueError("ndarray is not C-contiguous")
+    if not coeffs.flags.writeable:
+        raise ValueError("buffer source array is read-only")
+
+
 def cset_values(coeffs, name, out):
     if not _is_obj(out) and coeffs.dtype != object:
         return REAL["cset_values"](coeffs, name, out)
     _used("S1:cset_values")
+    _memview_contract(coeffs)
     field = out[name]  # KeyError/ValueError if no such field, as out.dtype.fields[name] would
     flat = field.reshape(-1) if field.ndim else field.reshape(1)
     for i in range(out.size):
@@ -53,6 +64,7 @@ def cadd_values(coeffs, name, out):
     if not _is_obj(out) and coeffs.dtype != object:
         return REAL["cadd_values"](coeffs, name, out)
     _used("S1:cadd_values")
+    _memview_contract(coeffs)
     field = out[name]
     flat = field.reshape(-1) if field.ndim else field.reshape(1)
     for i in range(out.size):
